@@ -70,6 +70,10 @@ def main(argv=None) -> int:
             with open(args.replay) as f:
                 case = json.load(f)
             case["_path"] = args.replay
+            if case.get("uncaught_library_exception"):
+                # the whole check is the replay: the exception escaped outside any single recorded case
+                print(f"replay {args.pid}: re-running the {case.get('tier', 'quick')} check (the recorded violation is an exception that escaped from the library)")
+                return main([args.pid, "--tier", case.get("tier", "quick")])
             fid = case.get("unlisted_known_finding_input")
             if fid:
                 # a discrepancy at a known finding's call site on an input that is not in the committed list:
@@ -88,7 +92,24 @@ def main(argv=None) -> int:
         return getattr(mod, runname)(args.tier, seed)
     except SystemExit:
         raise
-    except BaseException:  # noqa: BLE001
+    except BaseException as ex:  # noqa: BLE001
+        from . import core
+        if isinstance(ex, core.LibraryRaised) or core.raised_in_library(ex):
+            # last line of defence: the library itself raised something, on legal input, in a place where no oracle
+            # expected an exception.  That is a verdict about the library (the property quantifies over all legal
+            # inputs), not a harness failure
+            trace = getattr(ex, "trace", None) or traceback.format_exc()
+            os.makedirs(core.REPLAY_DIR, exist_ok=True)
+            case = {"property": args.pid, "tier": args.tier, "seed": seed, "uncaught_library_exception": f"{type(ex).__name__}: {ex}"[:400],
+                    "why": f"the library raised {str(ex)[:300] or type(ex).__name__} on legal input while the check was exercising it "
+                           "(no oracle expects an exception there)", "traceback": trace[-3000:]}
+            path = os.path.join(core.REPLAY_DIR, f"{args.pid}-{core.digest(case)}.json")
+            with open(path, "w") as f:
+                json.dump(case, f, indent=1)
+            print(f"VIOLATION property={args.pid} replay={path}", flush=True)
+            print(f"  why: {case['why']}", flush=True)
+            print(trace[-1500:], file=sys.stderr)
+            return 1
         traceback.print_exc()
         print(f"INTERNAL-ERROR {args.pid}: harness crashed (this is not a property verdict)", file=sys.stderr)
         return 3
